@@ -10,7 +10,9 @@ then `,` / `;` / `{`), the choice between `TypedefDeclaration` and `VariableAndO
 identifier is a function).  Over an alphabet in which a specifier, an initializer and a compound statement are one token each, and a
 declarator is one token CARRYING its tree (`Declarators.Decl`, what `DeclParser.parseDeclarator` builds): the two decisions that look
 into the declarator, `initOK` and `isFunDef`, are transcribed on that tree (`SyntaxUtilities::unparenthesizeDeclarator`,
-`innerDeclaratorOf`).  K&R parameter declarations, GNU attributes / asm labels and tag declarations among the specifiers are not in the model.
+`innerDeclaratorOf`).  The specifier loop distinguishes type specifiers (`Tok.ty`), a tag DECLARATION (`Tok.tagd`: `struct S { … }`, one token) and
+the other specifiers (`Tok.sp`, `Tok.tdef`): after a tag declaration the loop goes on taking the specifiers that are not type specifiers
+(6.7p1: any order) and stops at a type specifier.  K&R parameter declarations, GNU attributes / asm labels and typedef names are not in the model.
 -/
 namespace PsycheModel.Declaration
 open PsycheModel.Declarators
@@ -45,7 +47,9 @@ def fnNextToName (prevIsFn : Bool) : Decl → Bool
 def isFunDef (d : Decl) : Bool := fnNextToName false d
 
 inductive Tok where
-  | sp (n : Nat)             -- a type specifier / qualifier / storage class other than `typedef`
+  | sp (n : Nat)             -- a specifier that is not a type specifier: qualifier, storage class other than `typedef`, function / alignment specifier
+  | ty (n : Nat)             -- a type specifier keyword
+  | tagd (n : Nat)           -- a tag declaration: `struct` / `union` / `enum` with a body
   | tdef                     -- `typedef`
   | dcl (d : Decl)           -- a declarator, with its tree
   | eq
@@ -56,6 +60,8 @@ inductive Tok where
 inductive Spec where
   | kw (n : Nat)
   | tdef
+  | ty (n : Nat)
+  | tagd (n : Nat)
   deriving DecidableEq, Repr
 
 /-- an init-declarator -/
@@ -69,10 +75,18 @@ inductive R where
   | varDecl (ss : List Spec) (ids : List ID)             -- `VariableAndOrFunctionDeclarationSyntax`
   | funDef (ss : List Spec) (d : Decl) (body : Nat)      -- `FunctionDefinitionSyntax`
 
+/-- `parseDeclarationSpecifiers` once a tag declaration has been parsed (`decl` set): the specifiers that are not type specifiers -/
+def specsT : List Tok → List Spec × List Tok
+  | .sp n :: r => (.kw n :: (specsT r).1, (specsT r).2)
+  | .tdef :: r => (.tdef :: (specsT r).1, (specsT r).2)
+  | ts => ([], ts)
+
 /-- `parseDeclarationSpecifiers`: as many specifiers as there are -/
 def specs : List Tok → List Spec × List Tok
   | .sp n :: r => (.kw n :: (specs r).1, (specs r).2)
   | .tdef :: r => (.tdef :: (specs r).1, (specs r).2)
+  | .ty n :: r => (.ty n :: (specs r).1, (specs r).2)
+  | .tagd n :: r => (.tagd n :: (specsT r).1, (specsT r).2)
   | ts => ([], ts)
 
 /-- how an init-declarator list ended -/
@@ -132,6 +146,8 @@ def unit : Nat → List Tok → Option (List R)
 def ppSpec : Spec → Tok
   | .kw n => .sp n
   | .tdef => .tdef
+  | .ty n => .ty n
+  | .tagd n => .tagd n
 def ppID (x : ID) : List Tok :=
   .dcl x.d :: (match x.init with | some i => [.eq, .ini i] | none => [])
 def ppIDs : List ID → List Tok
@@ -146,13 +162,25 @@ def pp : R → List Tok
 
 def okID (x : ID) : Bool := x.init.isNone || initOK x.d
 
-/-- what the parser accepts: specifiers, at least one init-declarator where there is a list, initializers only where the declarator's kind
+/-- no type specifier -/
+def noType : List Spec → Bool
+  | [] => true
+  | .kw _ :: r => noType r
+  | .tdef :: r => noType r
+  | _ => false
+/-- the specifier lists the loop delivers: no type specifier after a tag declaration -/
+def okSpecs : List Spec → Bool
+  | [] => true
+  | .tagd _ :: r => noType r
+  | _ :: r => okSpecs r
+
+/-- what the parser accepts: specifiers (no type specifier after a tag declaration), at least one init-declarator where there is a list, initializers only where the declarator's kind
 allows one, `typedef` among the specifiers exactly for a `typedefDecl`, a function declarator next to the name for a definition -/
 def acc : R → Bool
-  | .incomplete ss => !ss.isEmpty
-  | .typedefDecl ss ids => !ss.isEmpty && hasTypedef ss && !ids.isEmpty && ids.all okID
-  | .varDecl ss ids => !ss.isEmpty && !hasTypedef ss && !ids.isEmpty && ids.all okID
-  | .funDef ss d _ => !ss.isEmpty && isFunDef d
+  | .incomplete ss => !ss.isEmpty && okSpecs ss
+  | .typedefDecl ss ids => !ss.isEmpty && hasTypedef ss && !ids.isEmpty && ids.all okID && okSpecs ss
+  | .varDecl ss ids => !ss.isEmpty && !hasTypedef ss && !ids.isEmpty && ids.all okID && okSpecs ss
+  | .funDef ss d _ => !ss.isEmpty && isFunDef d && okSpecs ss
 
 def ppU : List R → List Tok
   | [] => []
